@@ -38,7 +38,7 @@ GRID = {
     "d": DBLS,
     # wide strings of at most one character, written as its code point ("e": empty); several of them are
     # congruent modulo 256 (U+0041, U+0141, U+0241, U+10041)
-    "w": [("e", 0)] + [(str(cp), cp + 1) for cp in (0x41, 0x42, 0x141, 0x241, 0x10041)],
+    "w": [("e", 0)] + [(str(cp), cp + 1) for cp in (0x41, 0x141, 0x241, 0x10041, 0x42)],
 }
 SMALL = {k: v[:3] if k != "d" else v for k, v in GRID.items()}
 SMALL["s"] = [(hexs(s), STR_RANK[s]) for s in ("", "a", "b")]
@@ -205,6 +205,20 @@ def _collision_clause(cases, verdicts, feats):
             if "collision" in f:
                 per[t[5]][1].append(i)
     bad = {}
+    # the same bound for the pairs that differ in exactly one component ("the hash depends on every component"):
+    # a component whose changes are systematically ignored shows here even when it is a small part of the grid
+    one = {}
+    for i, (c, f) in enumerate(zip(cases, feats)):
+        t = c.split("\t")
+        if len(t) > 6 and t[1] == "cmp" and "one-leaf-differs" in f:
+            one.setdefault(t[5], [[], []])
+            one[t[5]][0].append(i)
+            if "collision" in f:
+                one[t[5]][1].append(i)
+    for name, (diff, col) in one.items():
+        if len(diff) >= 8 and 4 * len(col) > len(diff):
+            for i in col:
+                bad[i] = "bad:changing-one-component-does-not-change-the-hash(%d-of-%d-such-pairs-of-this-shape-collide)" % (len(col), len(diff))
     for name, (diff, col) in per.items():
         if len(diff) >= 8 and 4 * len(col) > len(diff):
             for i in col:
